@@ -138,5 +138,16 @@ func checks() map[string]CheckDef {
 		Outside: []string{"pairwise distinctness of issued tokens is a property of uniuri's randomness: it is ASSUMED (a colliding token would be dropped silently by ON CONFLICT DO NOTHING)", "restarts: TokenService holds no state but the configured admin token, the table is SQLite's", "operations overlapping in time, except: one authentication of the same token served at any storage-operation boundary inside a revocation (HarnessRevokeRace)", "the centrifuge transport; only the OnConnecting handler registered by setupNode is executed"},
 		Stubs:   []string{"uniuri.NewLen returns an arbitrary string", "centrifuge.Node: OnConnecting stores the handler, which the harness invokes (natively read back from the node by reflection)"},
 	})
+	add(CheckDef{
+		ID: "C11", Level: "model_checking",
+		Runs: []HRun{
+			{Pkg: "internal/zzverif/c11", Func: "HarnessEvents", Quick: [][]int64{{2}, {3}}, Thorough: [][]int64{{3}, {4}},
+				Labels: []string{"C11/exactly-one-event-per-stored-header-on-every-channel", "C11/event-fields-equal-stored-header", "C11/event-is-an-ADD-event", "C11/reported-stored-iff-stored", "C11/slow-channel-does-not-block-ingestion"}},
+			{Pkg: "internal/zzverif/c11", Func: "HarnessWebsocketChannel", Labels: []string{"C11/websocket-publishes-once-to-headers", "C11/websocket-payload-is-the-event"}},
+		},
+		Bounds:  []string{"one Add from an arbitrary INV-H store of k rows (quick k<=3, thorough k<=4): stored, duplicate, forbidden, or failing at the j-th write transaction (j=1..3); real Notifier with three channels, the middle one blocking forever", "websocket channel: arbitrary event fields, arbitrary history settings, publish succeeding or failing"},
+		Outside: []string{"goroutine interleavings: a goroutine started with `go` runs at its spawn point until it finishes or blocks forever (then it is parked); other schedules are not explored", "centrifuge delivery to real clients; the JSON text (json.Marshal is a blob tagged with the encoded value)", "a panicking channel", "webhook delivery is C12"},
+		Stubs:   []string{"recording channels, recording publisher", "encoding/json.Marshal = opaque blob of its argument"},
+	})
 	return m
 }
